@@ -20,6 +20,8 @@ struct Shared {
     states: Vec<WState>,
     granted: Option<usize>,
     trace: Vec<(usize, usize, &'static str, String)>,
+    /// the controller gave up (step budget / no progress): workers run on unscheduled and unlogged
+    abort: bool,
 }
 
 pub struct Sched {
@@ -30,17 +32,25 @@ pub struct Sched {
 impl Hook for Sched {
     fn before(&self, w: usize, _obj: usize, _op: &'static str) {
         let mut g = self.m.lock().unwrap();
+        if g.abort {
+            return;
+        }
         g.states[w] = WState::Waiting;
         self.cv.notify_all();
-        while g.granted != Some(w) {
+        while g.granted != Some(w) && !g.abort {
             g = self.cv.wait(g).unwrap();
+        }
+        if g.abort {
+            return;
         }
         g.granted = None;
         g.states[w] = WState::Running;
     }
     fn after(&self, w: usize, obj: usize, op: &'static str, detail: String) {
         let mut g = self.m.lock().unwrap();
-        g.trace.push((w, obj, op, detail));
+        if !g.abort {
+            g.trace.push((w, obj, op, detail));
+        }
     }
 }
 
@@ -107,6 +117,99 @@ pub struct ConcResult {
     pub hung: bool,
 }
 
+type Results = Arc<Mutex<Vec<Vec<(String, Option<pricelevel::MatchResult>)>>>>;
+
+/// one worker: registers, runs its program call by call (every call under catch_unwind), reports Finished
+fn worker(w: usize, prog: Vec<COp>, lvl: &PriceLevel, generator: &UuidGenerator, sched: &Sched, results: &Results) {
+    set_worker(Some(w));
+    for op in prog {
+        let r = std::panic::catch_unwind(std::panic::AssertUnwindSafe(|| -> (String, Option<pricelevel::MatchResult>) {
+            match &op {
+                COp::Add(o) => {
+                    lvl.add_order(*o);
+                    ("ok".to_string(), None)
+                }
+                COp::Match(q, t) => ("m".to_string(), Some(lvl.match_order(*q, *t, generator))),
+                COp::Cancel(id) => match lvl.update_order(OrderUpdate::Cancel { order_id: *id }) {
+                    Ok(o) => (format!("ok={}", show_opt_order(o.as_deref())), None),
+                    Err(e) => (format!("err={}", e.to_string().replace(' ', "_")), None),
+                },
+                COp::Amend(id, n) => match lvl.update_order(OrderUpdate::UpdateQuantity { order_id: *id, new_quantity: *n }) {
+                    Ok(o) => (format!("ok={}", show_opt_order(o.as_deref())), None),
+                    Err(e) => (format!("err={}", e.to_string().replace(' ', "_")), None),
+                },
+                COp::Read(k) => (
+                    match k.as_str() {
+                        "vis" => lvl.visible_quantity().to_string(),
+                        "hid" => lvl.hidden_quantity().to_string(),
+                        "cnt" => lvl.order_count().to_string(),
+                        _ => {
+                            let mut v: Vec<Order> = lvl.iter_orders().iter().map(|a| **a).collect();
+                            canon_sort(&mut v);
+                            show_list(&v, show_order)
+                        }
+                    },
+                    None,
+                ),
+                COp::Next => (format!("{}", generator.next()), None),
+            }
+        }));
+        let r = r.unwrap_or_else(|_| ("PANIC".to_string(), None));
+        results.lock().unwrap()[w].push(r);
+    }
+    set_worker(None);
+    let mut g = sched.m.lock().unwrap();
+    g.states[w] = WState::Finished;
+    sched.cv.notify_all();
+}
+
+/// the controller: admits one waiting worker per step following `want`, reads the aggregates between steps;
+/// returns (schedule followed, aggregates seen, gave up)
+fn control(sched: &Sched, lvl: &PriceLevel, n: usize, want: &[usize], step_budget: usize) -> (Vec<usize>, Vec<String>, bool) {
+    let mut schedule = Vec::new();
+    let mut obs = Vec::new();
+    let mut wi = 0usize;
+    let mut hung = false;
+    loop {
+        let mut g = sched.m.lock().unwrap();
+        let deadline = std::time::Instant::now() + std::time::Duration::from_secs(10);
+        while g.granted.is_some() || g.states.iter().any(|s| *s == WState::Running) {
+            let (g2, to) = sched.cv.wait_timeout(g, std::time::Duration::from_millis(200)).unwrap();
+            g = g2;
+            if to.timed_out() && std::time::Instant::now() > deadline {
+                hung = true;
+                break;
+            }
+        }
+        if hung {
+            g.abort = true;
+            sched.cv.notify_all();
+            break;
+        }
+        let (v, h, c) = lvl.verif_raw();
+        obs.push(format!("{v}/{h}/{c}"));
+        let waiting: Vec<usize> = (0..n).filter(|i| g.states[*i] == WState::Waiting).collect();
+        if waiting.is_empty() {
+            break;
+        }
+        if schedule.len() >= step_budget {
+            hung = true;
+            g.abort = true;
+            sched.cv.notify_all();
+            break;
+        }
+        let pick = match want.get(wi) {
+            Some(w) if waiting.contains(w) => *w,
+            _ => waiting[0],
+        };
+        wi += 1;
+        schedule.push(pick);
+        g.granted = Some(pick);
+        sched.cv.notify_all();
+    }
+    (schedule, obs, hung)
+}
+
 /// runs the threads' programs on `lvl` under `want` (a list of thread indices; when the wanted
 /// thread is not waiting, the lowest waiting one runs instead; the schedule actually followed is
 /// returned and is what the model is given)
@@ -115,12 +218,13 @@ pub fn run_conc(
     generator: Arc<UuidGenerator>,
     progs: Vec<Vec<COp>>,
     want: &[usize],
+    home0: bool,
     txids: &mut TxIds,
     step_budget: usize,
 ) -> ConcResult {
     let n = progs.len();
     let sched = Arc::new(Sched {
-        m: Mutex::new(Shared { states: vec![WState::Running; n], granted: None, trace: Vec::new() }),
+        m: Mutex::new(Shared { states: vec![WState::Running; n], granted: None, trace: Vec::new(), abort: false }),
         cv: Condvar::new(),
     });
     // object names
@@ -141,91 +245,29 @@ pub fn run_conc(
     names.insert(st.sum_waiting_time.verif_addr(), "st.wait");
 
     set_hook(Some(sched.clone() as Arc<dyn Hook>));
-    let results: Arc<Mutex<Vec<Vec<(String, Option<pricelevel::MatchResult>)>>>> = Arc::new(Mutex::new(vec![Vec::new(); n]));
+    let results: Results = Arc::new(Mutex::new(vec![Vec::new(); n]));
+    // Thread affinity: with `home0` worker 0 is NOT a fresh thread but the calling thread itself - the thread
+    // that constructed (or deserialized) the level and the id generator - and the controller runs on a thread of
+    // its own; otherwise all workers are fresh threads and the constructing thread is the controller.
+    let home0 = n > 0 && home0;
     let mut handles = Vec::new();
+    let mut prog0 = None;
     for (w, prog) in progs.into_iter().enumerate() {
+        if w == 0 && home0 {
+            prog0 = Some(prog);
+            continue;
+        }
         let (lvl, generator, sched, results) = (lvl.clone(), generator.clone(), sched.clone(), results.clone());
-        handles.push(std::thread::spawn(move || {
-            set_worker(Some(w));
-            for op in prog {
-                let r = std::panic::catch_unwind(std::panic::AssertUnwindSafe(|| -> (String, Option<pricelevel::MatchResult>) {
-                    match &op {
-                        COp::Add(o) => {
-                            lvl.add_order(*o);
-                            ("ok".to_string(), None)
-                        }
-                        COp::Match(q, t) => ("m".to_string(), Some(lvl.match_order(*q, *t, &generator))),
-                        COp::Cancel(id) => match lvl.update_order(OrderUpdate::Cancel { order_id: *id }) {
-                            Ok(o) => (format!("ok={}", show_opt_order(o.as_deref())), None),
-                            Err(e) => (format!("err={}", e.to_string().replace(' ', "_")), None),
-                        },
-                        COp::Amend(id, n) => match lvl.update_order(OrderUpdate::UpdateQuantity { order_id: *id, new_quantity: *n }) {
-                            Ok(o) => (format!("ok={}", show_opt_order(o.as_deref())), None),
-                            Err(e) => (format!("err={}", e.to_string().replace(' ', "_")), None),
-                        },
-                        COp::Read(k) => (
-                            match k.as_str() {
-                                "vis" => lvl.visible_quantity().to_string(),
-                                "hid" => lvl.hidden_quantity().to_string(),
-                                "cnt" => lvl.order_count().to_string(),
-                                _ => {
-                                    let mut v: Vec<Order> = lvl.iter_orders().iter().map(|a| **a).collect();
-                                    canon_sort(&mut v);
-                                    show_list(&v, show_order)
-                                }
-                            },
-                            None,
-                        ),
-                        COp::Next => (format!("{}", generator.next()), None),
-                    }
-                }));
-                let r = r.unwrap_or_else(|_| ("PANIC".to_string(), None));
-                results.lock().unwrap()[w].push(r);
-            }
-            set_worker(None);
-            let mut g = sched.m.lock().unwrap();
-            g.states[w] = WState::Finished;
-            sched.cv.notify_all();
-        }));
+        handles.push(std::thread::spawn(move || worker(w, prog, &lvl, &generator, &sched, &results)));
     }
-    // controller
-    let mut schedule = Vec::new();
-    let mut obs = Vec::new();
-    let mut wi = 0usize;
-    let mut hung = false;
-    loop {
-        let mut g = sched.m.lock().unwrap();
-        let deadline = std::time::Instant::now() + std::time::Duration::from_secs(10);
-        while g.granted.is_some() || g.states.iter().any(|s| *s == WState::Running) {
-            let (g2, to) = sched.cv.wait_timeout(g, std::time::Duration::from_millis(200)).unwrap();
-            g = g2;
-            if to.timed_out() && std::time::Instant::now() > deadline {
-                hung = true;
-                break;
-            }
-        }
-        if hung {
-            break;
-        }
-        let (v, h, c) = lvl.verif_raw();
-        obs.push(format!("{v}/{h}/{c}"));
-        let waiting: Vec<usize> = (0..n).filter(|i| g.states[*i] == WState::Waiting).collect();
-        if waiting.is_empty() {
-            break;
-        }
-        if schedule.len() >= step_budget {
-            hung = true;
-            break;
-        }
-        let pick = match want.get(wi) {
-            Some(w) if waiting.contains(w) => *w,
-            _ => waiting[0],
-        };
-        wi += 1;
-        schedule.push(pick);
-        g.granted = Some(pick);
-        sched.cv.notify_all();
-    }
+    let (schedule, obs, hung) = if let Some(prog) = prog0 {
+        let (l2, s2, w2) = (lvl.clone(), sched.clone(), want.to_vec());
+        let ctl = std::thread::spawn(move || control(&s2, &l2, n, &w2, step_budget));
+        worker(0, prog, &lvl, &generator, &sched, &results);
+        ctl.join().unwrap_or((Vec::new(), Vec::new(), true))
+    } else {
+        control(&sched, &lvl, n, want, step_budget)
+    };
     if !hung {
         for h in handles {
             let _ = h.join();
